@@ -1,8 +1,8 @@
-import RsslVerif.Model.Slots
+import RsslVerif.Model.SlotsCompile
 import RsslVerif.Driver.Util
 /-! Line-protocol front end of the C06 model. -/
 namespace RsslVerif.Driver.C06
-open RsslVerif.Gen.SlotTables RsslVerif.Model.Slots RsslVerif.Driver
+open RsslVerif.Gen.SlotTables RsslVerif.Model.Slots RsslVerif.Model.SlotsCompile RsslVerif.Driver
 
 def parseParams (s : String) : Option Params :=
   match s.toList.map bit? with
@@ -31,8 +31,79 @@ def showBinding : Option Binding → String
 def showBuf (b : InlineBuf) : String :=
   toString b.set ++ "," ++ toString b.apiLocation ++ "," ++ toString b.sizeInBytes
 
+/-! ### C06.compile -/
+
+def parseTarget : String → Option (Target × Bool)
+  | "dx" => some (.HlslForDirectX, false)
+  | "vk" => some (.HlslForVulkan, false)
+  | "vkba" => some (.HlslForVulkan, true)
+  | "msl" => some (.Msl, false)
+  | _ => none
+
+def parseMode (s : String) : Option Mode :=
+  if s == "all" then some .all
+  else if s == "nopipeline" then some .noPipeline
+  else if s.startsWith "name=" then some (.named (s.drop 5).toString) else none
+
+/-- `<name>:<default group|->:<c|g>:<uses>`; an absent DefaultBindGroup property leaves the typer's 0 -/
+def parsePipe (s : String) : Option Pipeline :=
+  match s.splitOn ":" with
+  | [name, dflt, _, _] => (optNat? dflt).map fun d => { name := name, defaultGroup := d.getD 0 }
+  | _ => none
+
+/-- `<name>=<decl>~<flags>`: flag `s` (static storage), `z` (unsized array) and `m` (two-dimensional array) make
+    the global one that `process_definition` leaves alone (storage class not Extern / after peeling the modifier and
+    ONE sized array layer the type is not an object); the other flags only change the spelling of the same
+    declaration. Returns (name, declaration, is unsized). -/
+def parseNamedDecl (s : String) : Option (String × Decl × Bool) :=
+  match s.splitOn "=" with
+  | [name, rest] =>
+    match rest.splitOn "~" with
+    | [decl, flags] =>
+      let fl := flags.splitOn "."
+      match parseDecl decl with
+      | none => none
+      | some d =>
+        let d' := match d with
+          | .global set ss kind len =>
+            if fl.contains "z" || fl.contains "m" then .global set ss none none
+            else if fl.contains "s" then .global set ss none len
+            else .global set ss kind len
+          | d => d
+        some (name, d', fl.contains "z")
+    | _ => none
+  | _ => none
+
+def showMetaBinding (b : MetaBinding) : String :=
+  b.name ++ "," ++ (match b.loc with | .index i => "i" ++ toString i | .inline o => "n" ++ toString o) ++ "," ++ toString b.count
+
+def showGroup (g : MetaGroup) : String :=
+  ";".intercalate (g.bindings.map showMetaBinding) ++ "|" ++
+  (match g.inlineBlock with | none => "-" | some (l, z) => toString l ++ "," ++ toString z)
+
+def showErr : Err → String
+  | .invalidArgs => "err:invalid-args"
+  | .noPipeline => "err:none"
+  | .unknownPipeline n => "err:unknown:" ++ n
+  | .bindGroup n => "err:bind-group:" ++ toString n
+  | .panic m => "panic:" ++ m
+
+def handleCompile (tgt mode pipes decls : String) : String :=
+  match parseTarget tgt, parseMode mode,
+        sequenceOpt ((if pipes == "-" then [] else pipes.splitOn ";").map parsePipe),
+        sequenceOpt ((if decls.isEmpty then [] else decls.splitOn ";").map parseNamedDecl) with
+  | some (t, sba), some m, some ps, some nds =>
+    if isMetal t && nds.any (·.2.2) then "unsupported: unsized resource arrays are not implemented by the Metal exporter"
+    else
+      let ir := Module.fresh (nds.map (·.1)) (nds.map (·.2.1)) ps
+      match compile { target := t, supportBufferAddress := sba, mode := m } ir with
+      | .error e => showErr e
+      | .ok bs => "ok:" ++ " ## ".intercalate (bs.map fun b => "{" ++ " / ".intercalate (b.groups.map showGroup) ++ "}")
+  | _, _, _, _ => "bad-request"
+
 def handle (op : String) (args : List String) : String :=
   match op, args with
+  | "C06.compile", [tgt, mode, pipes, decls] => handleCompile tgt mode pipes decls
   | "C06.assign", [ps, dflt, decls] =>
     match parseParams ps, dflt.toNat?,
           sequenceOpt ((if decls.isEmpty then [] else decls.splitOn ";").map parseDecl) with
